@@ -268,7 +268,7 @@ func (s *Session) hit(class string, ctx context.Context) faultAction {
 		_ = a[fire.K+1] // a genuine runtime.Error
 	case "error":
 		return actError
-	case "cancel":
+	case "cancel", "cancelquery":
 		if s.Cancel != nil {
 			s.Cancel()
 		}
